@@ -183,6 +183,21 @@ class SiteRule(Rule):
                 self.buf = self.pstr(args[b])
                 self.len = self.pstr(args[l])
         self.tag = None
+        self.raw_read = (nm in ('read', 'pread'))
+
+    def result_mask(self, ctx):
+        """Current (refined) classes of this site's result, wherever it lives."""
+        m = 0
+        found = False
+        for k, v in (ctx.env or {}).items():
+            if self.is_result(v[1]):
+                m |= v[0]
+                found = True
+        cv = (ctx.callvals or {}).get(self.call.uid)
+        if cv is not None:
+            m |= cv[0]
+            found = True
+        return m if found else (P1 | POS | Z)
 
     def pstr(self, e):
         p = access_path(e, self.subst)
@@ -263,6 +278,10 @@ class SiteRule(Rule):
             return ts
         if ts != 'short':
             return ts
+        # the result is known not to be positive any more (EOF or error edge): nothing was left unread
+        for expr, origins, before, after in refined:
+            if self.is_result(origins) and after & (P1 | POS) == 0:
+                return 'eof'
         # comparison of the result with the requested length decides "short"
         a = strip_transparent(node.e)
         if a.k == 'bin' and a.op in ('<', '>', '<=', '>=', '==', '!='):
@@ -310,6 +329,12 @@ class SiteRule(Rule):
         return ts
 
     def on_return(self, ctx, node, mask, ts):
+        if ts == 'short' and self.raw_read and self.caller_conv != 'void':
+            # read(): a positive count smaller than requested is not end of file; leaving to a success exit
+            # while the result may still be positive means the rest of the stream is silently dropped
+            if not (node.e is not None and self.is_result(ctx.origins(node.e))) and mask & self.caller_succ:
+                self.report(ctx, 'short-exit', node, 'success exit while the last read() may have returned a '
+                            'positive short count: only 0 means end of file')
         if ts == 'fail' or (ts == 'short' and self.kind == 'write'):
             if self.caller_conv == 'void':
                 if node.k == 'exit' or node.e is None:
